@@ -45,6 +45,11 @@ def glib_idle_add(eng, args, kwargs):
         args = [args[0], V(args[1].t.inner, args[1].t.val(args[1].z))] + list(args[2:])
     if is_py(fv, 'bound') and len(args) > 1 and isinstance(args[1].t, TRef) and args[1].t.cls == 'Ctr':
         name = fv.py[3].name
+        # a bundle handed to any other entry point would bypass what the contracts of these two guarantee (C10: every
+        # bundle that is processed went through the seen-identity check of recv_bundle): an obligation at every
+        # such scheduling (trivially true for the two entry points)
+        eng.ob('call_pre', 'idle_add@%s.bundle_scheduled_only_for_send_bundle_or_recv_bundle' % eng.frame.name,
+               z3.BoolVal(name in ('send_bundle', 'recv_bundle')), props=('C10',))
         if name == 'send_bundle':
             _ghost_append(eng, 'sched_send', args[1])
         elif name == 'recv_bundle':
@@ -137,7 +142,7 @@ def _rd(eng, ref, schema, field):
 
 def sb_ident_of(eng, ctr):
     '''The bundle identity as the property states it: (source, creation time, sequence number) and, for
-    fragments only, (fragment offset, total application data length) -- as a list value, so that two
+    fragments only, (fragment offset, total application data length, payload length) -- as a list value, so that two
     identities are equal exactly when they have the same components.'''
     from pyvc import lists as L
     from pyvc.types import NAMED, TList
@@ -151,8 +156,14 @@ def sb_ident_of(eng, ctr):
     flags = _rd(eng, prim, 'pkt:PrimaryBlock', 'bundle_flags')
     e_src = z3.If(src.t.is_none(src.z), et.mk('none'), et.mk('str', src.t.val(src.z)))
     e = [e_src, et.mk('int', _rd(eng, ts, 'pkt:Timestamp', 'dtntime').z), et.mk('int', _rd(eng, ts, 'pkt:Timestamp', 'seqno').z)]
+    # ... and the fragment's own payload length (the data of block number 1, when there is one)
+    bn = _rd(eng, ctr, 'Ctr', '_block_num')
+    has1 = z3.Select(bn.t.dom(bn.z), z3.IntVal(1))
+    pblk = V(bn.t.v, z3.Select(bn.t.map(bn.z), z3.IntVal(1)))
+    btsd = _rd(eng, pblk, 'pkt:CanonicalBlock', 'btsd')
+    plen = z3.If(z3.And(has1, z3.Not(btsd.t.is_none(btsd.z))), et.mk('int', z3.Length(btsd.t.val(btsd.z))), et.mk('none'))
     frag = [et.mk('int', _rd(eng, prim, 'pkt:PrimaryBlock', 'fragment_offset').z),
-            et.mk('int', _rd(eng, prim, 'pkt:PrimaryBlock', 'total_app_data_len').z)]
+            et.mk('int', _rd(eng, prim, 'pkt:PrimaryBlock', 'total_app_data_len').z), plen]
     from pyvc.sym import int_and_const
     is_frag = int_and_const(flags.z, 1) != 0
     return V(lt, z3.If(is_frag, L.l_from_items(lt, e + frag), L.l_from_items(lt, e)))
